@@ -180,8 +180,8 @@ Add(C, R, p) == [T \in DOMAIN R |-> [r \in DOMAIN R[T] |-> R[T][r] + Contrib(C, 
 \* repaired loop: the pod's aggregated release for this target touches nothing of what is still short
 CodeUseful(C, t, R, p) == \E r \in CodeShort(C, t, R) : Contrib(C, TT(C, t), p, r) > 0
 
-Init(Cases) ==
-  /\ cs \in Cases
+InitCase(C) ==
+  /\ cs = C
   /\ victims = {} /\ tried = {}
   /\ ti = 1 /\ pi = 0
   /\ rel = [T \in TargetTypes(cs) |-> [r \in (IF T \in DOMAIN cs.c THEN ResOf(cs, T) ELSE {}) |-> 0]]
